@@ -86,6 +86,43 @@ void apiCase(size_t idx) {
 			if (!checkNow(nif, s, true, w2, "RemoveEmptyPartitions")) return;
 		}
 		if (round == 0 && idx % 2 == 0) checkReload(nif, w2, "SetShapePartitions+UpdateSkinPartitions");
+		if (round == 2 && idx % 3 == 1 && s->GetNumVertices() > 6) {
+			// a vertex deletion between an assignment and the next rebuild: the partition blocks cache true triangles and the
+			// triangle-to-partition list; surviving triangles keep the partition they had, and the rebuild satisfies the invariants
+			NiVector<BSDismemberSkinInstance::PartitionInfo> pb;
+			std::vector<int> tpB;
+			if (!nif.GetShapePartitions(s, pb, tpB)) return;
+			std::vector<Triangle> before;
+			s->GetTriangles(before);
+			uint16_t nv = s->GetNumVertices();
+			std::vector<uint16_t> del;
+			std::vector<char> gone(nv, 0);
+			for (uint16_t v = 0; v < nv; v++)
+				if (rng.coin(7)) { del.push_back(v); gone[v] = 1; }
+			if (!del.empty() && del.size() + 3 < nv && tpB.size() == before.size()) {
+				R_phase("DeleteVertsForShape");
+				nif.DeleteVertsForShape(s, del);
+				s = nif.GetShapes().at(0);
+				std::vector<int> want;
+				for (size_t i = 0; i < before.size(); i++)
+					if (!gone[before[i].p1] && !gone[before[i].p2] && !gone[before[i].p3]) want.push_back(tpB[i]);
+				s->GetTriangles(tris);
+				R_eval();
+				if (tris.size() == want.size() && !tris.empty()) {
+					// right after the deletion: indices valid, every triangle in one partition, cached true triangles agree with the
+					// mapped ones (a vertex map may keep vertices whose triangles went away, and emptied partitions may go: no
+					// statement about partition numbers)
+					{
+						auto errs = checkPartitions(nif, s, true, nullptr, false);
+						if (!errs.empty()) { report(errs, w2 + fmt(" [%zu vertices deleted]", del.size()), "DeleteVertsForShape"); return; }
+					}
+					R_phase("UpdateSkinPartitions");
+					nif.UpdateSkinPartitions(s);
+					if (!checkNow(nif, s, true, w2, "DeleteVertsForShape+UpdateSkinPartitions")) return;
+					R_stat("deletions_between_assignment_and_rebuild");
+				}
+			}
+		}
 	}
 	// delete partitions, then the documented recovery: read the assignment, write it back, rebuild
 	{
